@@ -251,10 +251,13 @@ def gen_patterns(rng, nodes):
     pats = []
     for _ in range(k):
         nd = rng.choice(nodes)
-        kind = rng.randrange(11)
+        kind = rng.randrange(13)
         if kind in (4, 5, 9, 10) and in_cur:
             nd = rng.choice(in_cur)
         pkg = nd["pkg"]
+        if kind >= 11:
+            pats.append("//...:" + nd["name"])      # root-recursive with a name filter: the name must still be honoured
+            continue
         if kind >= 9:
             pats.append(":...")
             continue
@@ -292,6 +295,24 @@ def gen_relative_req(rng, n=None):
     pat = rng.choice([":...", ":...", ":all", ":" + (rng.choice(in_cur)["name"] if in_cur else rng.choice(NAMES))])
     req = {"nodes": nodes, "edges": [list(e) for e in es], "cur": cur, "patterns": [pat], "tags": [], "exclude": [],
            "type": rng.choice(["all", "all", "no_test"]), "platform": PLATFORMS[0], "all_platforms": rng.random() < 0.5}
+    order = list(range(len(nodes)))
+    rng.shuffle(order)
+    req["order"] = order
+    return req
+
+
+def gen_rootname_req(rng, n=None):
+    """targeted family: `//...:name` (everything named `name`, in any package), alone and next to other patterns, over graphs in which
+    the name occurs in several packages and other names occur too"""
+    nodes, es = gen_attr_graph(rng, rng.randint(4, 10) if n is None else n, plat_p=0.1)
+    nd = rng.choice(nodes)
+    pats = ["//...:" + nd["name"]]
+    if rng.random() < 0.5:
+        other = rng.choice(nodes)
+        pats.append(rng.choice(["//" + other["pkg"] + ":" + other["name"], "//" + other["pkg"] + ":all", ":" + other["name"]]))
+        rng.shuffle(pats)
+    req = {"nodes": nodes, "edges": [list(e) for e in es], "cur": rng.choice(PKGS), "patterns": pats, "tags": [], "exclude": [],
+           "type": rng.choice(["all", "no_test", "test"]), "platform": PLATFORMS[0], "all_platforms": rng.random() < 0.5}
     order = list(range(len(nodes)))
     rng.shuffle(order)
     req["order"] = order
